@@ -265,9 +265,12 @@ PROPERTIES = {
     "C17": {
         "runs": [{"suite": "cmp"}],
         "exhaustive": False,
+        "regen": {"groups": ["Cmp"]},
+        "technique": REGEN_TECHNIQUE + " (regenerated: all 32 hand-written mixed PartialEq / PartialOrd impls, discovered in src/pointer.rs on every run, and the derive lists / newtype shape of the two declarations; the derived impls themselves are rustc's)",
+        "level_suffix": regen_note("every hand-written `impl PartialEq<X> for Y` / `impl PartialOrd<X> for Y` of src/pointer.rs (32 impls, discovered not listed: Properties/C17_src.v proves each IS the comparison of the two texts with the operands in the order written, and that the lists cover every impl found) and the #[derive(..)] lists and one-field shape of Pointer(str) / PointerBuf(String)"),
         "level_text": "THIN THEOREMS, HEAVY TIE (DESIGN 6/C17, 9). Proved in Coq: the text comparison the model uses for every impl (str_cmp / str_eqb) is a total order whose Eq case is equality, "
-                      "consistent with the equality impls and with the hash stream (text ++ 0xff is injective), so lookups through Borrow are sound. That each of the 17 hand-written PartialEq, "
-                      "15 hand-written PartialOrd impls and the derived Eq/Ord/Hash is that function is established by the tie: all ordered pairs of 60 pointer texts through every impl by UFCS, "
+                      "consistent with the equality impls and with the hash stream (text ++ 0xff is injective), so lookups through Borrow are sound. That each of the 17 hand-written PartialEq and "
+                      "15 hand-written PartialOrd impls is that function is PROVED of the regenerated source (C17_src, all operands); for the derived Eq/Ord/Hash it is established by the tie, which also re-runs every hand-written impl: all ordered pairs of 60 pointer texts through every impl by UFCS, "
                       "eq/ne/partial_cmp/lt/le/gt/ge/cmp, a recording Hasher for Pointer/PointerBuf/str/String, HashMap/HashSet/BTreeMap lookups with &Pointer and iteration order.",
         "rule": "suite cmp: all 3600 ordered pairs of 60 pointer texts (equal, prefix-related, first/middle/last byte differing, length only, multi-byte) x 19 equality and 17 ordering impls + Ord + hash streams + map lookups; "
                 "non-trivial = the two texts differ; distinct = distinct case lines",
